@@ -437,6 +437,7 @@ func (w *Reconciler) syncCreateTask(
 			)
 			w.recorder.Eventf(rj, corev1.EventTypeWarning, "AdmissionError",
 				"Task already exists and cannot be adopted: %v", name)
+			rj = newRj
 
 			return rj, tasks, nil
 		}
